@@ -325,11 +325,18 @@ pub fn generate(level: usize) -> Vec<Scenario> {
             u(p(&s1, h + 192, 5, None)),
             a(g(&s1, 0, Some(0))),
             a(g(&s1, HUGE_ORDER, None)),
-            // parts below a row inside the first rows (leave partially used rows behind)
-            u(p(&s1, h + 1, 0, None)),
-            u(p(&s1, h + 8, 3, Some(0))),
         ];
         out.extend(pairs("F5-split-huge", &cfg, &setup, &alpha));
+        // parts below a row inside the first rows (leave partially used rows behind)
+        let alpha_b = vec![
+            u(p(&s1, h + 1, 0, None)),
+            u(p(&s1, h + 8, 3, Some(0))),
+            u(p(&s1, h + 32, 5, None)),
+            u(p(&s1, h + 64, 4, Some(0))),
+            u(p(&s1, h + 128, 7, None)),
+            a(g(&s1, 0, Some(0))),
+        ];
+        out.extend(pairs("F5-split-huge-rows", &cfg, &setup, &alpha_b));
         if level > 0 {
             out.extend(triples("F5-split-huge", &cfg, &setup, &alpha[..5]));
         } else {
